@@ -1,5 +1,6 @@
 """C11 — JSON export and load round-trip every JSON-representable tree."""
 import itertools
+import copy
 import json
 import re
 
@@ -75,6 +76,21 @@ def strict_eq(a, b):
     if isinstance(a, list):
         return len(a) == len(b) and all(strict_eq(x, y) for x, y in zip(a, b))
     return a == b
+
+
+def plant_floats(rng, v, pool):
+    """replace some scalar leaves (and add one) by floats from the pool"""
+    if isinstance(v, dict):
+        o = {k: plant_floats(rng, x, pool) for k, x in v.items()}
+        if rng.random() < 0.3:
+            o["fl"] = rng.choice(pool) * rng.choice([1, -1])
+        return o
+    if isinstance(v, list):
+        o = [plant_floats(rng, x, pool) for x in v]
+        if rng.random() < 0.3:
+            o.insert(rng.randint(0, len(o)), rng.choice(pool))
+        return o
+    return rng.choice(pool) * rng.choice([1, 1, -1]) if rng.random() < 0.4 else v
 
 
 def depth_over(ct, lvl=0):
@@ -258,6 +274,14 @@ class C11(Prop):
         for _ in range(n):
             t = self.r_tree(rng, rng.choice([1, 2, 3, 4]), root=True)
             tj("rnd", t, self.r_opts(rng))
+        # ---- floats outside the shared value type (not halves): shortest-repr doubles that need 16-17 significant digits,
+        #      extremes of the exponent range.  The model's value type cannot hold them, so these cases go to the oracle only
+        hard = [0.1 + 0.2, 1 / 3, 3.141592653589793, 1.1 * 1.1, 2 / 3, 1e-07, 1e22, 1.7976931348623157e308, 5e-324,
+                123456789.12345679, 0.1, 9007199254740993.0, 1e16, 1.5e-10, 4.35, 2.675, 100.0]
+        for _ in range(120 if quick else 5000):
+            v = plain(self.r_tree(rng, rng.choice([1, 2, 3]), root=True))
+            v = plant_floats(rng, v, hard)
+            out.append({"stream": "tojson_f", "tag": "floats", "input": {"tree": v, "opts": self.r_opts(rng)}})
         # ---- loading -------------------------------------------------------------------------
         nl = 300 if quick else 15000
         for _ in range(nl):
@@ -289,6 +313,8 @@ class C11(Prop):
 
     def valid(self, case):
         i = case["input"]
+        if case.get("stream") == "tojson_f":
+            return False
         if case.get("stream") == "tojson":
             o = i.get("opts", {})
             return (is_ctree(i.get("tree"), root=True) and isinstance(o.get("indent"), int) and abs(o["indent"]) <= 8
@@ -299,6 +325,13 @@ class C11(Prop):
     def build(self, ct):
         return L.uncanon(ct, wrap=True)
 
+    def wrap_all(self, v):
+        if isinstance(v, dict):
+            return self.n0dict({k: self.wrap_all(x) for k, x in v.items()})
+        if isinstance(v, list):
+            return self.n0list([self.wrap_all(x) for x in v])
+        return v
+
     def parsed(self, text):
         try:
             return ("ok", json.loads(text.strip()))
@@ -307,6 +340,14 @@ class C11(Prop):
 
     def run_impl(self, case):
         i = case["input"]
+        if case["stream"] == "tojson_f":
+            o = i["opts"]
+            x = self.wrap_all(i["tree"])      # the same construction as the main stream (n0dict(d) / n0list(l) at every level)
+            s = x.to_json(indent=o["indent"], pairs_in_one_line=o["pairs"], compress=o["compress"],
+                          skip_empty_arrays=o["skip"])
+            if not isinstance(s, str):
+                raise TypeError("to_json returned %s" % type(s).__name__)
+            return {"ok": ["s", s]}
         if case["stream"] == "tojson":
             o = i["opts"]
             x = self.build(i["tree"])
@@ -350,11 +391,11 @@ class C11(Prop):
     # ---- the property on the implementation --------------------------------------------------
     def oracle(self, case, obs):
         i = case["input"]
-        if case["stream"] == "tojson":
+        if case["stream"] in ("tojson", "tojson_f"):
             if "raise" in obs:
                 return "to_json raised %s" % obs.get("exc", obs["raise"])
             text = obs["ok"][1]
-            want = plain(i["tree"])
+            want = plain(i["tree"]) if case["stream"] == "tojson" else copy.deepcopy(i["tree"])
             if i["opts"]["skip"]:
                 p = prune(want)
                 want = type(want)() if p is DROP else p
